@@ -79,7 +79,17 @@ pub(crate) fn add_key_output_from_action_to_key_pos(
         }) => {
             add_key_output_from_action_to_key_pos(osc_slot, tap, outputs, overrides);
             add_key_output_from_action_to_key_pos(osc_slot, hold, outputs, overrides);
-            add_key_output_from_action_to_key_pos(osc_slot, timeout_action, outputs, overrides);
+            // The tap-hold variants without a timeout action store a copy of the hold action
+            // there. Its outputs are already known. Skipping it matters for tap-holds nested in
+            // the hold action: walking both copies doubles the work at every level of nesting.
+            if !is_copy_of_same_action(hold, timeout_action) {
+                add_key_output_from_action_to_key_pos(
+                    osc_slot,
+                    timeout_action,
+                    outputs,
+                    overrides,
+                );
+            }
         }
         Action::OneShot(OneShot { action: ac, .. }) => {
             add_key_output_from_action_to_key_pos(osc_slot, ac, outputs, overrides);
@@ -139,6 +149,23 @@ pub(crate) fn add_key_output_from_action_to_key_pos(
         | Action::OneShotIgnoreEventsTicks(_)
         | Action::ReleaseState(_) => {}
     };
+}
+
+/// True if both actions refer to the very same nested action data,
+/// i.e. one is a copy of the other.
+fn is_copy_of_same_action(a: &KanataAction, b: &KanataAction) -> bool {
+    use std::ptr::eq;
+    match (a, b) {
+        (Action::HoldTap(x), Action::HoldTap(y)) => eq(*x, *y),
+        (Action::MultipleActions(x), Action::MultipleActions(y)) => eq(*x, *y),
+        (Action::MultipleKeyCodes(x), Action::MultipleKeyCodes(y)) => eq(*x, *y),
+        (Action::OneShot(x), Action::OneShot(y)) => eq(*x, *y),
+        (Action::TapDance(x), Action::TapDance(y)) => eq(*x, *y),
+        (Action::Fork(x), Action::Fork(y)) => eq(*x, *y),
+        (Action::Chords(x), Action::Chords(y)) => eq(*x, *y),
+        (Action::Switch(x), Action::Switch(y)) => eq(*x, *y),
+        _ => false,
+    }
 }
 
 pub(crate) fn add_kc_output(
